@@ -240,6 +240,12 @@ M_MatchingError ==
 \* an array that has a value answers index 0 with its length n, 1..n with its elements (the ones the whole read
 \* shows), n+1 and a large index with invalid-array-index
 M_ArrayIndexing ==
+  /\ \* a single indexed read of an array whose value the last full read-back shows
+     (act'.op = "read" /\ act'.i # NoIdx /\ Decl(sch, act'.o, act'.p) /\ IsArr(sch, act'.o, act'.p)
+                      /\ val[act'.o][act'.p].st = "val") =>
+        LET e == val[act'.o][act'.p].e IN
+        res' = (IF act'.i = 0 THEN LenR(Len(e)) ELSE IF act'.i <= Len(e) THEN ValR(<<e[act'.i]>>) ELSE E_BadIndex)
+  /\ \* a walk over the array
     (act'.op = "scan" /\ Decl(sch, act'.o, act'.p) /\ IsArr(sch, act'.o, act'.p) /\ val[act'.o][act'.p].st # "abs") =>
         /\ Len(out') >= 1 /\ out'[1].i = 0 /\ out'[1].r.k = "len"
         /\ LET n == out'[1].r.n IN
